@@ -447,7 +447,7 @@ func reconfigurationDeterminism(tier Tier) ([]Viol, map[string]interface{}) {
 // all the other recipes; the two results must be identical (earlier unrelated calls on the same
 // function objects must not matter).
 func seedConstructionDeterminism() []Viol {
-	names := []string{"fung", "sft", "mixed", "frozen", "aliased", "refunds", "refunds-with-call", "handover"}
+	names := []string{"fung", "sft", "mixed", "frozen", "aliased", "refunds", "refunds-with-call", "handover", "zero-credit"}
 	var viols []Viol
 	used, err := world.NewEnv(ledgerEnv(2))
 	if err != nil {
